@@ -13,7 +13,9 @@ META = {
     "technique": "exhaustive small-scope enumeration of models x containers x labels, bounds compared with the full truth table",
     "text": "Every model with <=3 variables and <=3 (quick) / <=4 (thorough) terms over {-2,-1,-1/2,1,2,3} with and without offset, in every container, "
             "raw-dict spelling and label scheme, is passed to the four approximate_*_extrema functions and to anneal_temperature_range with all 15 "
-            "admissible probability pairs from {0,.01,.3,.5,.99}; lo<=min, hi>=max, constants, T0>=Tf>=0 and (0,0) are checked on each.",
+            "admissible probability pairs from {0,.01,.3,.5,.99}; lo<=min, hi>=max, constants, T0>=Tf>=0 and (0,0) are checked on each. Histories: on every model type, "
+            "the extrema functions are queried before and after each of <=2 edits from a menu of 16 (del / pop / popitem / item assignment / += -= *= / *= {} / clear / update): "
+            "the bounds must describe the model as it is at that moment.",
     "note": "Bounded: n<=3, dyadic coefficient alphabet (exact in doubles). Models are in refreshed state.",
 }
 
@@ -116,16 +118,117 @@ def check(case, st):
                         v2("order", "expected T0 >= Tf >= 0")
 
 
+# ------------------------------------------------------------------ histories: query, edit, query again (Engine B, depth 2)
+
+HIST_START = {(0,): 2, (0, 1): -3, (2,): 1, (): 1.5}
+HIST_EDITS = [["del", [0]], ["del", []], ["pop", [0, 1]], ["pop", []], ["popitem"], ["set", [2], -4], ["set", [], -2], ["set", [1, 2], 5],
+              ["iadd", [[[1], 2], [[], 1]]], ["isub", [[[0], 2]]], ["imul", 0.5], ["imul", -2], ["imulempty"], ["clear"], ["update", [[[0], 7], [[], 0]]],
+              ["delall-nonconst"]]
+
+
+def hist_cases(tier):
+    for kind in ("bool", "spin"):
+        for cont in (gen.SPIN_CONTAINERS if kind == "spin" else gen.BOOL_CONTAINERS):
+            if cont == "dict":
+                continue
+            for e1 in range(len(HIST_EDITS)):
+                yield {"part": "hist", "kind": kind, "container": cont, "edits": [e1]}
+                for e2 in range(len(HIST_EDITS)):
+                    yield {"part": "hist", "kind": kind, "container": cont, "edits": [e1, e2]}
+
+
+def check_hist(case, st):
+    """The bounds must describe the model as it is NOW: the functions are queried before and after every edit."""
+    qv = paths.import_qubovert()
+    spin = case["kind"] == "spin"
+    cont = case["container"]
+    sch = "int" if cont in gen.MATRIX else "str"
+    labels = gen.labels_for(sch, N)
+    L = lambda k: tuple(labels[i] for i in k)      # noqa
+    M = gen.build(cont, gen.relabel(HIST_START, sch, N))
+    fns = ["approximate_puso_extrema" if spin else "approximate_pubo_extrema", "approximate_quso_extrema" if spin else "approximate_qubo_extrema"]
+    st.nontrivial += 1
+
+    def query(when):
+        D = dict(M)
+        table = rp.tt(D, labels, spin)
+        tmin, tmax = float(table.min()), float(table.max())
+        const = all(not k for k in D)
+        for fn in fns:
+            if max((len(k) for k in D), default=0) > 2 and "qu" in fn:
+                continue
+            st.transitions += 1
+            st.traces += 1
+            r, _w = call(getattr(qv.utils, fn), M)
+
+            def v(kind, msg):
+                st.violation("hist|%s|%s" % (fn, kind), case, "C15 %s %s, edits %s, %s: %s(%s) = %r: %s"
+                             % (cont, HIST_START, [HIST_EDITS[i] for i in case["edits"]], when, fn, short(D, 160), r, msg))
+            if isinstance(r, Raised):
+                v("raises-" + r.kind, "raised %r" % r.exc)
+                continue
+            lo, hi = r
+            eps = 1e-9 * max(abs(tmin), abs(tmax), 1.0)
+            if lo > tmin + eps:
+                v("lo-above-min", "lo > true minimum %r of the model as it is now" % tmin)
+            elif hi < tmax - eps:
+                v("hi-below-max", "hi < true maximum %r of the model as it is now" % tmax)
+            elif const and not (abs(lo - tmin) <= eps and abs(hi - tmin) <= eps):
+                v("constant", "the model is constant now: lo = hi = %r expected" % tmin)
+    query("before any edit")
+    for n, ei in enumerate(case["edits"]):
+        e = HIST_EDITS[ei]
+
+        def do():
+            nonlocal M
+            if e[0] == "del":
+                if L(e[1]) in M:
+                    del M[L(e[1])]
+            elif e[0] == "pop":
+                M.pop(L(e[1]), None)
+            elif e[0] == "popitem":
+                if M:
+                    M.popitem()
+            elif e[0] == "set":
+                M[L(e[1])] = e[2]
+            elif e[0] in ("iadd", "isub", "update"):
+                d = {L(k): c for k, c in e[1]}
+                if e[0] == "iadd":
+                    M += d
+                elif e[0] == "isub":
+                    M -= d
+                else:
+                    M.update(d)
+            elif e[0] == "imul":
+                M *= e[1]
+            elif e[0] == "imulempty":
+                M *= {}
+            elif e[0] == "clear":
+                M.clear()
+            elif e[0] == "delall-nonconst":
+                for k in [k for k in M if k]:
+                    del M[k]
+        r, _w = call(do)
+        if isinstance(r, Raised):
+            st.outcomes["hist: edit raised %s" % r.kind] += 1
+            return
+        query("after edit %d" % (n + 1))
+
+
 def run(ctx):
-    ctx.bounds = {"n": N, "coefs": COEFS, "offsets": OFFSETS, "max_terms": 3 if ctx.quick else 4, "flip_probabilities": PROBS, "scale_slice": "<=2-term models scaled by 2^-50 and 2^40",
+    ctx.bounds = {"n": N, "histories": {"start": rp.jdict(HIST_START), "edits": HIST_EDITS, "depth": 2, "containers": "every model type, boolean and spin"}, "coefs": COEFS, "offsets": OFFSETS, "max_terms": 3 if ctx.quick else 4, "flip_probabilities": PROBS, "scale_slice": "<=2-term models scaled by 2^-50 and 2^40",
                   "containers": "all of DESIGN 2.4 + permuted raw dicts + raw dicts with repeated labels", "schemes": list(gen.LABELLED_SCHEMES)}
     ctx.rule = "case = (kind, polynomial); each is checked in every container x label scheme x function; non-trivial = at least two non-constant terms"
     ctx.assumptions = ["models are refreshed (anneal_temperature_range reads the cached variable set)"]
     explore_cases(ctx, gen_cases(ctx.tier), check, label="C15")
+    explore_cases(ctx, lambda: hist_cases(ctx.tier), check_hist, label="C15 histories")
 
 
 def replay(case):
     from ..runner import Stats
     st = Stats()
+    if case.get("part") == "hist":
+        check_hist({k: case[k] for k in ("part", "kind", "container", "edits")}, st)
+        return [(s, m) for s, c, m in st.viol]
     check({"kind": case["kind"], "poly": case["poly"], "tier": "thorough"}, st)
     return [(s, m) for s, c, m in st.viol]
